@@ -884,7 +884,7 @@ def run(ctx, out, replay=None):
                 "1.5 and (1 in 20) 1; bounds from trivially met to unsatisfiable; 6% grids with a missing cell and 3% with "
                 "a degenerate cell (KeyError) for the correspondence only; 15% after an earlier solve in the same process, "
                 "10% after an earlier solve (other k, other bound) with the SAME carrier and input-file objects, as rect's "
-                "main does; cells also listed reversed and rows top-down; one case in 100 has 32..36 cells (11x3, 6x6, "
+                "main does; cells also listed reversed and rows top-down; one case in 125 has 32..36 cells (11x3, 6x6, "
                 "33x1, 1x34, 7x5, 8x4; k <= 2); "
                 "every 8th case reaches the search through a real Allocation, rect_io.get_alloc and select_box - "
                 "alternately with dyadic numbers (select_box compared with the model exactly) and with decimal "
@@ -906,7 +906,7 @@ def run(ctx, out, replay=None):
         # ... and every other one of those hands the parsed input file to select_box directly (any origin: negative,
         # ending at 0, straddling 0, far from 0)
         cases.append(gen_case(ctx.rng, small=(j % 2 == 0), alloc=(None if j % 8 != 5 else (j % 16 != 5)),
-                              via=("ifile" if j % 8 == 5 and (j // 16) % 3 != 0 else "file"), big=(j % 100 == 51)))
+                              via=("ifile" if j % 8 == 5 and (j // 16) % 3 != 0 else "file"), big=(j % 125 == 51)))
     stats = {"sat": 0, "unsat": 0, "keyerror": 0, "zerodiv": 0, "zero_quality_denominator": 0, "enumerated_instances": 0, "models_enumerated": 0,
              "max_clauses": 0, "with_diagram": 0}
 
